@@ -318,13 +318,13 @@ def related(sc):
 # ---------------------------------------------------------------------------------------------
 # hash-seed workers
 
-def hashseed_digest(docs, route, seed):
+def hashseed_digest(docs, route, seed, optimise=False):
     payload = json.dumps({'docs': docs, 'route': route})
     env = dict(os.environ)
     env['PYTHONHASHSEED'] = str(seed)
     env['PYTHONPATH'] = core.VERIF
     env['PYTHONDONTWRITEBYTECODE'] = '1'
-    p = subprocess.run([sys.executable, '-c', 'from aysim.props import c15; c15._hash_worker()'], input=payload.encode(), env=env,
+    p = subprocess.run([sys.executable] + (['-O'] if optimise else []) + ['-c', 'from aysim.props import c15; c15._hash_worker()'], input=payload.encode(), env=env,
                        stdout=subprocess.PIPE, stderr=subprocess.PIPE, timeout=120, cwd=core.VERIF)
     if p.returncode != 0:
         raise core.HarnessError(f'hash-seed worker failed: {p.stderr.decode()[-800:]}')
@@ -422,9 +422,12 @@ def execute(sc):
             if res['violations']:
                 break
         if not res['violations'] and (not focus or focus == 'determinism.hashseed'):
-            for hs in sc['hashseeds']:
-                hb = hashseed_digest(sc['docs'], sc['route'], hs)
+            for hi, hs in enumerate(sc['hashseeds']):
+                # the second re-executed interpreter also runs with -O: results must not depend on interpreter flags either
+                hb = hashseed_digest(sc['docs'], sc['route'], hs, optimise=(hi == 1))
                 count(pr, 'hashseed_builds')
+                if hi == 1:
+                    count(pr, 'interpreter_with_-O')
                 ok, diff = _same_build(ref, hb)
                 if not ok:
                     res['violations'].append(core.violation('determinism.hashseed', f'PYTHONHASHSEED={hs}: result differs from the pristine build in {diff[0]}: {json.dumps(diff[1])[:400]} vs {json.dumps(diff[2])[:400]}', what=diff[0]))
